@@ -357,6 +357,8 @@ bool StepExtended(ScriptExecutionEnvironment& env, CScript::const_iterator& pc, 
         vch1 = stacktop(-2);
         vch2 = stacktop(-1);
         vch1.insert(vch1.end(), vch2.begin(), vch2.end());
+        // the result is a stack element like any other
+        if (vch1.size() > MAX_SCRIPT_ELEMENT_SIZE) return set_error(serror, SCRIPT_ERR_PUSH_SIZE);
         popstack(stack);
         popstack(stack);
         pushstack(stack, vch1);
